@@ -13,6 +13,9 @@ then for every payload byte the two bytes [1, byte], then the trailer byte [0].
 ``validate()`` checks the same contract clauses on the real zlib / zstandard."""
 
 
+from vp.harness import unmodelled, unmodelled_attr
+
+
 class Recorder(object):
     def __init__(self):
         self.calls = []
@@ -20,10 +23,15 @@ class Recorder(object):
 
 
 class _Comp(object):
-    def __init__(self, rec, header):
+    def __init__(self, rec, header, finish_mode, partial_modes):
         self.rec = rec
         self.buf = header
         self.flushed = False
+        self.finish_mode = finish_mode        # zlib.Z_FINISH / zstandard.COMPRESSOBJ_FLUSH_FINISH: the default of flush()
+        self.partial_modes = partial_modes    # flush modes that hand out what is pending without ending the stream
+
+    def __getattr__(self, name):
+        unmodelled_attr('compression object .', name)
 
     def compress(self, data):
         self.rec.calls.append(('compress', data))
@@ -41,7 +49,23 @@ class _Comp(object):
         out, self.buf = self.buf[:c], self.buf[c:]
         return out
 
-    def flush(self):
+    def flush(self, *a, **kw):
+        mode = self.finish_mode
+        if len(a) == 1 and not kw:
+            mode = a[0]
+        elif a or kw:
+            if list(kw) in (['mode'], ['flush_mode']) and not a:
+                mode = list(kw.values())[0]
+            else:
+                unmodelled('flush%r%r' % (a, kw))
+        if mode != self.finish_mode:
+            if mode not in self.partial_modes:
+                unmodelled('flush mode %r' % (mode,))
+            self.rec.calls.append(('flush_partial', mode))
+            if self.flushed:
+                raise ValueError('flush after the end of the stream')
+            out, self.buf = self.buf, b''
+            return out
         self.rec.calls.append(('flush',))
         if self.flushed:
             raise ValueError('flush called twice')
@@ -67,6 +91,9 @@ class _Decomp(object):
         self.eof = False
         self.unused_data = b''
         self.unconsumed_tail = b''
+
+    def __getattr__(self, name):
+        unmodelled_attr('decompression object .', name)
 
     def decompress(self, data, max_length=0):
         """zlib's optional max_length: at most that many output bytes are returned, the input not yet consumed is kept in unconsumed_tail"""
@@ -112,23 +139,58 @@ ZSTD = b'\x28\xb5'
 
 class FakeZlib(object):
     MAX_WBITS = 15
+    DEFLATED = 8
+    DEF_MEM_LEVEL = 8
+    DEF_BUF_SIZE = 16384
+    Z_NO_COMPRESSION, Z_BEST_SPEED, Z_BEST_COMPRESSION, Z_DEFAULT_COMPRESSION = 0, 1, 9, -1
+    Z_DEFAULT_STRATEGY, Z_FILTERED, Z_HUFFMAN_ONLY, Z_RLE, Z_FIXED = 0, 1, 2, 3, 4
+    Z_NO_FLUSH, Z_PARTIAL_FLUSH, Z_SYNC_FLUSH, Z_FULL_FLUSH, Z_FINISH, Z_BLOCK = 0, 1, 2, 3, 4, 5
+    error = CodecError
 
     def __init__(self, rec):
         self.rec = rec
 
-    def _hdr(self, kw):
-        return GZIP if kw.get('wbits') == (self.MAX_WBITS | 16) else ZLIB
+    def __getattr__(self, name):
+        unmodelled_attr('zlib.', name)
+
+    def _hdr(self, wbits):
+        """container selected by wbits, as documented: 9..15 zlib, 25..31 gzip; raw deflate (negative) and header auto-detection (+32) are not modelled"""
+        if isinstance(wbits, int) and 9 <= wbits <= 15:
+            return ZLIB
+        if isinstance(wbits, int) and 25 <= wbits <= 31:
+            return GZIP
+        unmodelled('zlib wbits=%r' % (wbits,))
 
     def compressobj(self, *a, **kw):
         self.rec.calls.append(('compressobj', a, dict(kw)))
-        return _Comp(self.rec, self._hdr(kw))
+        names = ['level', 'method', 'wbits', 'memLevel', 'strategy', 'zdict']
+        if len(a) > len(names) or any(k not in names for k in kw) or 'zdict' in kw or len(a) > 5:
+            unmodelled('zlib.compressobj%r%r' % (a, kw))
+        args = dict(zip(names, a))
+        args.update(kw)
+        if args.get('method', 8) != 8:
+            unmodelled('zlib.compressobj method=%r' % (args['method'],))
+        return _Comp(self.rec, self._hdr(args.get('wbits', self.MAX_WBITS)), self.Z_FINISH, (self.Z_SYNC_FLUSH, self.Z_FULL_FLUSH))
 
     def decompressobj(self, *a, **kw):
         self.rec.calls.append(('decompressobj', a, dict(kw)))
-        return _Decomp(self.rec, self._hdr(kw))
+        names = ['wbits', 'zdict']
+        if len(a) > 1 or any(k != 'wbits' for k in kw):
+            unmodelled('zlib.decompressobj%r%r' % (a, kw))
+        args = dict(zip(names, a))
+        args.update(kw)
+        return _Decomp(self.rec, self._hdr(args.get('wbits', self.MAX_WBITS)))
 
 
 class FakeZstd(object):
+    COMPRESSOBJ_FLUSH_FINISH = 0
+    COMPRESSOBJ_FLUSH_BLOCK = 1
+    MAX_COMPRESSION_LEVEL = 22
+    ZstdError = CodecError
+
+    def __getattr__(self, name):
+        unmodelled_attr('zstandard.', name)
+
     def __init__(self, rec):
         self.rec = rec
         outer = self
@@ -136,17 +198,31 @@ class FakeZstd(object):
         class ZstdCompressor(object):
             def __init__(self, *a, **kw):
                 outer.rec.calls.append(('ZstdCompressor', a, dict(kw)))
+                if len(a) > 1 or any(k not in ('level', 'threads', 'write_checksum', 'write_content_size') for k in kw):
+                    unmodelled('ZstdCompressor%r%r' % (a, kw))
+
+            def __getattr__(self, name):
+                unmodelled_attr('ZstdCompressor.', name)
 
             def compressobj(self, *a, **kw):
                 outer.rec.calls.append(('compressobj', a, dict(kw)))
-                return _Comp(outer.rec, ZSTD)
+                if a or any(k != 'size' for k in kw):
+                    unmodelled('ZstdCompressor.compressobj%r%r' % (a, kw))
+                return _Comp(outer.rec, ZSTD, outer.COMPRESSOBJ_FLUSH_FINISH, (outer.COMPRESSOBJ_FLUSH_BLOCK,))
 
         class ZstdDecompressor(object):
             def __init__(self, *a, **kw):
                 outer.rec.calls.append(('ZstdDecompressor', a, dict(kw)))
+                if a or kw:
+                    unmodelled('ZstdDecompressor%r%r' % (a, kw))
+
+            def __getattr__(self, name):
+                unmodelled_attr('ZstdDecompressor.', name)
 
             def decompressobj(self, *a, **kw):
                 outer.rec.calls.append(('decompressobj', a, dict(kw)))
+                if a or kw:
+                    unmodelled('ZstdDecompressor.decompressobj%r%r' % (a, kw))
                 d = _Decomp(outer.rec, ZSTD)
                 d.reusable_after_eof = False
                 return d
